@@ -17,7 +17,7 @@ PROPERTIES = {
         ],
     },
     "C16": {
-        "bounds": "one tag per query; pid/u32, exit codes i64/i32, custom signal i32 over their full ranges; paths: two fixed short PathBufs; wire totality: every kind x every present/absent combination of the 10 optional fields; unwind 8/24 (memcmp of <= 23-byte names)",
+        "bounds": "fs kinds: all 41 kinds of the notify enumeration via a (kind, documented name) table, format half and parse half; other tags: one tag per query; pid/u32, exit codes i64/i32, custom signal i32 over their full ranges; paths: two fixed short PathBufs; wire totality: every kind x every present/absent combination of the 10 optional fields; unwind 8/24 (memcmp of <= 23-byte names)",
         "outside": "serde_json text layer (escaping, number printing, field spelling in the text), metadata maps, non-UTF-8 paths, events with > 1 tag",
         "trusted": ["Kani 0.68 / CBMC 6.11 / CaDiCaL", "hook watchexec_events::verif (cfg(kani)) exposing SerdeTag fields"],
         "assumptions": ["serde derive maps struct fields 1:1 to JSON object members (not encoded)"],
@@ -27,6 +27,19 @@ PROPERTIES = {
             {"group": "events", "name": "c16_wire_fields", "covers": ["completion with end"], "bounds": "as c16_tag_roundtrip"},
             {"group": "events", "name": "c16_wire_totality", "covers": ["known kind degraded to Unknown", "completion parsed"],
              "bounds": "8 kinds x 2^9 field-presence masks x full integer payloads x 4 `full` strings"},
+            {"group": "events", "name": "c16_fs_parse_0", "covers": ["last kind of the range"], "bounds": "wire names 0..7 of the 41-entry kind table (path-split), `simple` field absent/any value (symbolic)"},
+            {"group": "events", "name": "c16_fs_parse_1", "covers": ["last kind of the range"], "bounds": "wire names 7..14 of the 41-entry kind table (path-split), `simple` field absent/any value (symbolic)"},
+            {"group": "events", "name": "c16_fs_parse_2", "covers": ["last kind of the range"], "bounds": "wire names 14..21 of the 41-entry kind table (path-split), `simple` field absent/any value (symbolic)"},
+            {"group": "events", "name": "c16_fs_parse_3", "covers": ["last kind of the range"], "bounds": "wire names 21..28 of the 41-entry kind table (path-split), `simple` field absent/any value (symbolic)"},
+            {"group": "events", "name": "c16_fs_parse_4", "covers": ["last kind of the range"], "bounds": "wire names 28..35 of the 41-entry kind table (path-split), `simple` field absent/any value (symbolic)"},
+            {"group": "events", "name": "c16_fs_parse_5", "covers": ["last kind of the range"], "bounds": "wire names 35..41 of the 41-entry kind table (path-split), `simple` field absent/any value (symbolic)"},
+            {"group": "events", "name": "c16_fs_format_0", "covers": ["last kind of the range"], "mem_gb": 12, "bounds": "kinds 0..7 of the table: real format!(\"{kind:?}\") (core::fmt not stubbed) must equal the documented name; unwind 34", "timeout": {"quick": 1500, "thorough": 3000}},
+            {"group": "events", "name": "c16_fs_format_1", "tiers": ("thorough",), "covers": ["last kind of the range"], "mem_gb": 12, "bounds": "kinds 7..14 of the table: real format!(\"{kind:?}\") (core::fmt not stubbed) must equal the documented name; unwind 34", "timeout": {"quick": 1500, "thorough": 3000}},
+            {"group": "events", "name": "c16_fs_format_2", "tiers": ("thorough",), "covers": ["last kind of the range"], "mem_gb": 12, "bounds": "kinds 14..21 of the table: real format!(\"{kind:?}\") (core::fmt not stubbed) must equal the documented name; unwind 34", "timeout": {"quick": 1500, "thorough": 3000}},
+            {"group": "events", "name": "c16_fs_format_3", "covers": ["last kind of the range"], "mem_gb": 12, "bounds": "kinds 21..28 of the table: real format!(\"{kind:?}\") (core::fmt not stubbed) must equal the documented name; unwind 34", "timeout": {"quick": 1500, "thorough": 3000}},
+            {"group": "events", "name": "c16_fs_format_4", "tiers": ("thorough",), "covers": ["last kind of the range"], "mem_gb": 12, "bounds": "kinds 28..35 of the table: real format!(\"{kind:?}\") (core::fmt not stubbed) must equal the documented name; unwind 34", "timeout": {"quick": 1500, "thorough": 3000}},
+            {"group": "events", "name": "c16_fs_format_5", "tiers": ("thorough",), "covers": ["last kind of the range"], "mem_gb": 12, "bounds": "kinds 35..41 of the table: real format!(\"{kind:?}\") (core::fmt not stubbed) must equal the documented name; unwind 34", "timeout": {"quick": 1500, "thorough": 3000}},
+            {"group": "events", "name": "c16_fs_simple_only", "covers": ["remove"], "bounds": "5 coarse kinds"},
         ],
     },
     "C19": {
@@ -69,13 +82,17 @@ PROPERTIES = {
         ],
     },
     "C18": {
-        "bounds": "Exec: program + <= 3 args; Shell: <= 2 options, optional program option, command, <= 2 args; every string 0..=2 characters from {a, space, double quote, quote, $, *, newline, backslash, e-acute (2 bytes), -}; all 8 spawn-option combinations",
-        "outside": "what tokio/std/the kernel do with the argv (exec fidelity, pgid/sid), strings longer than 2 characters, spawn-hook env/cwd visibility in a real child, CLI argument interpretation",
+        "bounds": "Exec: program (1 byte) + 0..=3 args of 0..=2 bytes; Shell: 0..=2 options, optional program option, command (2 bytes), 0..=2 extra args (0..=2 bytes); every byte symbolic over ASCII 0x01..=0x7f (all shell metacharacters, whitespace, quotes, control characters); one concrete multi-byte argument; all 8 spawn-option combinations (symbolic). Counts/lengths are path-split, bytes and options solver-decided.",
+        "outside": "what tokio/std/the kernel do with the argv (exec fidelity, pgid/sid), strings longer than 2 bytes, NUL bytes, spawn-hook env/cwd visibility in a real child, CLI argument interpretation",
         "trusted": ["Kani 0.68 / CBMC 6.11 / CaDiCaL", "models/tokio process::Command (records program/args verbatim)", "models/process-wrap (records wrapper kinds)"],
         "assumptions": ["tokio::process::Command::arg/args append one argv element per call/item (documented std behaviour)"],
         "harnesses": [
-            {"group": "supervisor", "name": "c18_exec_argv_exact", "covers": ["three args", "empty-string argument"], "bounds": "<= 3 args x <= 2 chars"},
-            {"group": "supervisor", "name": "c18_shell_argv_order", "covers": ["full shell form", "no program option"], "bounds": "<= 2 options, <= 2 args, <= 2 chars each"},
+            {"group": "supervisor", "name": "c18_exec_argv_exact", "covers": ["three args, first empty", "argument ' *'"], "bounds": "0..=3 args x 2 length patterns x symbolic bytes x symbolic options"},
+            {"group": "supervisor", "name": "c18_exec_argv_unicode", "bounds": "1..=3 args, first = multi-byte/space/quote string"},
+            {"group": "supervisor", "name": "c18_shell_argv_with_progopt", "covers": ["full shell form"], "bounds": "0..=2 options x 0..=2 args, program option present, symbolic bytes/options"},
+            {"group": "supervisor", "name": "c18_shell_argv_no_progopt", "covers": ["no program option"], "bounds": "0..=2 options x 0..=2 args, no program option"},
+            {"group": "supervisor", "name": "c18_exec_argv_exact_full", "tiers": ("thorough",), "bounds": "0..=3 args x all 27 length combinations", "timeout": {"thorough": 7200}},
+            {"group": "supervisor", "name": "c18_shell_argv_full", "tiers": ("thorough",), "bounds": "54 shapes", "timeout": {"thorough": 7200}},
         ],
     },
 }
